@@ -228,14 +228,14 @@ def borrowed_and_factory_cases(ctx):
 
 def run(ctx):
     world = H.World(ctx.rng)
-    n_hist = 160 if ctx.quick else 1000
+    n_hist = 900 if ctx.quick else 5000
     for i in range(n_hist):
         kind = ["analog", "complex", "spectrum", "digital"][i % 4]
         H.gen_history(world, kind, ctx.rng.randint(1, 14 if ctx.quick else 40))
     # mostly-valid histories (the generic stream spends most calls on rejected arguments): buffer adoption / growth chains
     # such as 1-D base -> 2-D adoption -> growth on single-signal digital waveforms, borrowed buffers followed by appends
     wv = {"appa": 4, "appw": 1, "load": 6, "setcount": 1, "setcap": 4, "settiming": 0, "write": 2, "get": 2, "pickle": 1, "bad": 0}
-    n_valid = 240 if ctx.quick else 1500
+    n_valid = 1200 if ctx.quick else 6000
     for i in range(n_valid):
         kind = ["digital", "analog", "digital", "spectrum", "digital", "complex"][i % 6]
         H.gen_history(world, kind, ctx.rng.randint(3, 10 if ctx.quick else 20), weights=wv, irregular_bias=0.05,
